@@ -111,6 +111,20 @@ pub fn cursor_sweep(n: usize, l: usize, rng: &mut ChaCha20Rng, dense: bool) -> V
         coefs[pos] = Coef { neg: false, low: 0, high: 0 };
         out.push(Case { cell: format!("poszero|pos{}", pos), x: pack(&emit_coefs(&coefs), l) });
     }
+    // several negative zeros in one string: pairs, triples, quadruples at spread positions, all
+    // but the last, and every coefficient
+    for set in [vec![0usize, 1], vec![0, n - 2], vec![n / 3, n / 2], vec![1, n - 1], vec![0, 1, 2], vec![0, n / 2, n - 2], vec![0, 1, 2, 3], vec![2, 5, n / 2, n - 2], (0..n - 1).collect::<Vec<_>>(), (0..n).collect::<Vec<_>>(), (0..n).filter(|i| i % 2 == 0).collect::<Vec<_>>()] {
+        if set.iter().any(|&p| p >= n) {
+            continue;
+        }
+        let mut coefs: Vec<Coef> = (0..n).map(|_| Coef { neg: rng.gen(), low: rng.gen_range(1..128), high: 0 }).collect();
+        for &p_ in &set {
+            coefs[p_] = Coef { neg: true, low: 0, high: 0 };
+        }
+        let mut dedup = set.clone();
+        dedup.dedup();
+        out.push(Case { cell: format!("negzero-x{}|first{}", dedup.len(), set[0]), x: pack(&emit_coefs(&coefs), l) });
+    }
     // exactly fitting / one bit too long valid-looking strings
     for d in -10i64..=10 {
         let want = total + d;
